@@ -327,6 +327,9 @@ type XRev struct {
 	Actions map[uint32]XAction
 	Kind    string // "table", "stream" or "hybrid"
 	Extra   XDict  // extra trailer entries of this revision (e.g. /Info)
+	// Direct lists numbers which must not go into an object stream (the
+	// encryption dictionary, 7.5.7).
+	Direct map[uint32]bool
 }
 
 // XHistory is a document as a list of revisions, oldest first.  Object 1 is
@@ -496,7 +499,7 @@ func RenderHistory(r *Rand, h *XHistory, plain bool, encrypt func(num uint32, ge
 		if rev.Kind != "table" {
 			for _, n := range nums {
 				a := rev.Actions[n]
-				if a.Free || a.Gen != 0 {
+				if a.Free || a.Gen != 0 || rev.Direct[n] {
 					continue
 				}
 				if _, isStream := a.Value.(*XStream); isStream {
